@@ -38,6 +38,10 @@ class CallableAction:
     def __call__(self):
         return self.fn()
 
+    def __bool__(self):
+        # ... and falsy (a stop switch whose truth value means "stop requested"): still the action to call
+        return False
+
 
 def make_task(d, sid, sv, stop, snapshot_bad):
     async def cleanup():
